@@ -147,6 +147,12 @@ func ParseQuery(q string) (stmts []Stmt, perr bool, ok bool) {
 	return stmts, false, true
 }
 
+// ReturnErr, returned as the op error by an Extra hook, makes the statement
+// function return Err immediately (instead of recording it and continuing).
+type ReturnErr struct{ Err error }
+
+func (r *ReturnErr) Error() string { return r.Err.Error() }
+
 // ErrParser is the error returned for "#perr".
 var ErrParser = errors.New("scripted parser error")
 
@@ -274,6 +280,11 @@ func (r *Rec) statement(i int, st Stmt, query string) *wire.PreparedStatement {
 			}
 			e.Out = r.delta(from)
 			r.add(e)
+			var ret *ReturnErr
+			if errors.As(opErr, &ret) {
+				r.add(Ev{Kind: "ret", Stmt: i, Err: ret.Err.Error()})
+				return ret.Err
+			}
 		}
 		r.add(Ev{Kind: "ret", Stmt: i})
 		return nil
